@@ -415,7 +415,11 @@ func doCheck(cfg *Config, id, only string) int {
 	var incon []string
 	nViol := 0
 	var knownRepro []string
-	os.MkdirAll(filepath.Join(cfg.verifDir, "replay"), 0o755)
+	replayDir := filepath.Join(cfg.verifDir, "replay")
+	if d := os.Getenv("VERIF_EVIDENCE_DIR"); d != "" {
+		replayDir = filepath.Join(d, "replay")
+	}
+	os.MkdirAll(replayDir, 0o755)
 	for _, h := range runs {
 		for _, m := range h.incon {
 			incon = append(incon, h.spec.Func+": "+m)
@@ -464,7 +468,7 @@ func doCheck(cfg *Config, id, only string) int {
 				continue
 			}
 			nViol++
-			file := filepath.Join(cfg.verifDir, "replay", fmt.Sprintf("%s-%s-%d.json", id, h.spec.Func, i))
+			file := filepath.Join(replayDir, fmt.Sprintf("%s-%s-%d.json", id, h.spec.Func, i))
 			v.Case.Label = v.Label
 			jb, _ := json.MarshalIndent(v, "", " ")
 			os.WriteFile(file, jb, 0o644)
@@ -522,6 +526,9 @@ func writeEvidenceFailure(cfg *Config, ev *evidence, msg string, t0 time.Time) {
 
 func (ev *evidence) write(cfg *Config) error {
 	dir := filepath.Join(cfg.verifDir, "evidence")
+	if d := os.Getenv("VERIF_EVIDENCE_DIR"); d != "" {
+		dir = d // self-test runs against scratch trees must not overwrite the evidence of /repo
+	}
 	os.MkdirAll(dir, 0o755)
 	b, err := json.MarshalIndent(ev, "", " ")
 	if err != nil {
